@@ -289,8 +289,51 @@ def doWrapper (toks : List String) : String :=
           s!"query={showVal (w .query_fn)} sudo={showVal (w .sudo_fn)} reply={showVal (w .reply_fn)} migrate={showVal (w .migrate_fn)}"
         | _, _ => "bad-op"
 
+def parseOrigin : String → Option Origin
+  | "instantiate" => some .instantiate | "execute" => some .execute | "migrate" => some .migrate
+  | "sudo" => some .sudo | "reply" => some .reply | _ => none
+
+/-- `send-sub-from ENTRY native|lifted (KIND H)+`: the emitter contract returns the messages from its entry
+point `o`. The emitting contract is the fresh instance `cx` for `instantiate`, else the standing emitter
+`cn` / `cl`; it is the sender of every sub-message whatever the entry point (`subDispatch`); who
+triggered the entry point (u1, the admin u2, the sudo caller) appears nowhere. -/
+def doSendSub (st : RouteState) (app : RouteApp) (o : Origin) (rest : List String) : RouteState × String :=
+  match rest with
+  | [] => (st, "bad-op")
+  | origin :: items =>
+    if origin != "native" && origin != "lifted" then (st, "bad-op") else
+    match parseItems' items with
+    | none => (st, "bad-op")
+    | some l =>
+      let me := if o == .instantiate then "cx" else if origin == "native" then "cn" else "cl"
+      -- the request that makes the contract run is itself routed to the wasm module
+      let triggerOk : Bool :=
+        if o.viaSudo then
+          (match route .harness Gen.Router.sudoTable .wasm with
+           | .call .wasm .sudo _ true => true
+           | _ => false)
+        else
+          (match route .harness Gen.Router.execTable .wasm with
+           | .call .wasm .execute _ true => true
+           | _ => false)
+      if !triggerOk then (st, "model-unknown") else
+      -- an Empty-typed contract's response is lifted message by message before anything is dispatched
+      let lifted : Option (List (Kind × List UInt8 × Bool)) :=
+        if origin == "native" then some (l.map fun (k, h) => (k, h, true))
+        else l.mapM fun (k, h) =>
+          match lift .harness Gen.Lift.table k with
+          | .msg k' intact => some (k', h, intact)
+          | _ => none
+      match lifted with
+      | none => (st, "panic")
+      | some ms =>
+        if ms.any (fun m => !m.2.2) then (st, "model-unknown") else
+        let (res, store, recs) := runTx app (ms.map fun (k, h, _) =>
+          ⟨k, (subDispatch .harness Gen.Router.execTable o me k).sender, h⟩)
+        ({ app := some { app with store := store }, log := st.log ++ recs }, showRes res)
+
 def knownOps : List String :=
-  ["send-top", "send-sub", "query", "sudo", "records", "block", "storage-dump", "init-count", "api-prefix", "wasm-gen"]
+  ["send-top", "send-sub", "send-sub-from", "query", "sudo", "records", "block", "storage-dump", "init-count", "api-prefix", "wasm-gen"]
 
 def stepRoute (st : RouteState) (toks : List String) : RouteState × String :=
   match toks with
@@ -314,30 +357,12 @@ def stepRoute (st : RouteState) (toks : List String) : RouteState × String :=
         | some l =>
           let (res, store, recs) := runTx app (l.map fun (k, h) => ⟨k, "u1", h⟩)
           ({ app := some { app with store := store }, log := st.log ++ recs }, showRes res)
-      | "send-sub", origin :: items =>
-        if origin != "native" && origin != "lifted" then (st, "bad-op") else
-        match parseItems' items with
+      | "send-sub", rest => doSendSub st app .execute rest
+      | "send-sub-from", entry :: rest =>
+        match parseOrigin entry with
         | none => (st, "bad-op")
-        | some l =>
-          let me := if origin == "native" then "cn" else "cl"
-          -- the user's message to the emitter contract is itself routed (kind wasm)
-          match route .harness Gen.Router.execTable .wasm with
-          | .call .wasm .execute _ true =>
-            -- an Empty-typed contract's response is lifted message by message before anything is dispatched
-            let lifted : Option (List (Kind × List UInt8 × Bool)) :=
-              if origin == "native" then some (l.map fun (k, h) => (k, h, true))
-              else l.mapM fun (k, h) =>
-                match lift .harness Gen.Lift.table k with
-                | .msg k' intact => some (k', h, intact)
-                | _ => none
-            match lifted with
-            | none => (st, "panic")
-            | some ms =>
-              if ms.any (fun m => !m.2.2) then (st, "model-unknown") else
-              let (res, store, recs) := runTx app (ms.map fun (k, h, _) => ⟨k, me, h⟩)
-              ({ app := some { app with store := store }, log := st.log ++ recs }, showRes res)
-          | _ => (st, "model-unknown")
-      | "send-sub", [] => (st, "bad-op")
+        | some o => doSendSub st app o rest
+      | "send-sub-from", [] => (st, "bad-op")
       | "query", [k, h] =>
         match unhex h with
         | none => (st, "bad-op")
